@@ -74,6 +74,19 @@ CONFIGS = {
                  ("boundary", 2), ("extended", 1)],
 }
 BOUNDARY_VALUES = ("0", "-1", "1", "+1", "x")
+
+
+def SPELLINGS(cur):
+    """Other spellings a shell hands over: the value followed / preceded by
+    a control character that Python's int() strips (CRLF parameter files,
+    form feeds, unicode line separators), digit separators, other bases,
+    and the float spellings of "no number at all"."""
+    c = str(cur)
+    return [c + "\r", "\r" + c, c + "\n", c + "\x0c", c + "\x1c",
+            c + "\x1e", c + "\x85", c + "\u2028", " " + c + " ",
+            c[:1] + "_" + c[1:] if len(c) > 1 else "1_0", "0x10", "inf",
+            "-inf", "Infinity", "1e999", "1e400", "1e-400", c + ".0",
+            "0" + c]
 CHUNK = 40
 # runs of this check cost 30-800 ms each: smaller determinism sample
 SELFTEST_N = {"quick": 10, "thorough": 60}
@@ -294,7 +307,8 @@ def mutate(rng, argv, tool):
             except ValueError:
                 cur = 1
             argv[i] = str(rng.choice([0, -1, 1, cur + 1, cur - 1, "x", "1.5",
-                                      "", "1e1", "nan", "+2", "٣"]))
+                                      "", "1e1", "nan", "+2", "٣"] +
+                                     SPELLINGS(cur)))
     elif kind == "unknown":
         argv.insert(rng.randrange(n + 1),
                     rng.choice(["--bogus", "-Z", "--seed", "-o", "-of",
